@@ -60,16 +60,17 @@ const (
 	opKeywordInsert
 	opContinuation
 	opELFSection
+	opValueEdit
 	nOps
 )
 
 var opNames = [nOps]string{"bitflip", "byteset", "trunc-random", "trunc-token", "line-delete", "line-dup", "line-swap",
 	"token-delete", "token-dup", "token-swap", "lenfield", "token-repeat", "deep-nest", "long-line", "splice", "number-edit",
-	"invalid-utf8", "chunk-delete", "chunk-dup", "keyword-insert", "continuation", "elf-section"}
+	"invalid-utf8", "chunk-delete", "chunk-dup", "keyword-insert", "continuation", "elf-section", "value-edit"}
 
 // weights for text and for binary seeds
-var textWeights = [nOps]int{4, 6, 5, 6, 6, 5, 4, 7, 5, 4, 1, 5, 5, 2, 4, 7, 4, 3, 2, 4, 6, 0}
-var binWeights = [nOps]int{10, 9, 6, 2, 1, 1, 1, 2, 2, 2, 14, 2, 2, 1, 4, 2, 2, 5, 3, 1, 1, 12}
+var textWeights = [nOps]int{4, 6, 5, 6, 6, 5, 4, 7, 5, 4, 1, 5, 5, 2, 4, 7, 4, 3, 2, 4, 6, 0, 12}
+var binWeights = [nOps]int{10, 9, 6, 2, 1, 1, 1, 2, 2, 2, 14, 2, 2, 1, 4, 2, 2, 5, 3, 1, 1, 12, 0}
 
 const delims = "\n \t,:=\"'{}[]<>();/|@#&"
 
@@ -205,6 +206,18 @@ func mutateOnce(r *rand.Rand, b []byte, isBinary bool, other func() []byte) ([]b
 	out := append([]byte(nil), b...)
 	n := len(out)
 	switch op {
+	case opValueEdit:
+		// structured-value mutation: parse as JSON / TOML / YAML, rewrite one string leaf with a separator-aware edit,
+		// serialise again (falls back to editing a token of the raw text)
+		if m, label, ok := valueEdit(r, out); ok {
+			return m, op, label
+		}
+		a, e := tokenAt(out, pos(r, n))
+		if e > a {
+			ns := sepEdit(r, string(out[a:e]))
+			return splice3(out[:a], []byte(ns), out[e:]), op, fmt.Sprintf("value-edit(raw-token@%d)", a)
+		}
+		return out, op, "value-edit(noop)"
 	case opELFSection:
 		// structure-aware length-field edit: the size / offset of one ELF section header (falls back to a generic
 		// length-field edit when the input is not an ELF file)
